@@ -140,8 +140,15 @@ def cells(x, p):
 def get_rect(x, p):
     mp, gfx, oldm, oldg = map_of(x)
     w, h = p['w'], p['h']
-    cx = x.int('x', 0, 127)
-    cy = x.int('y', 0, 63)            # documented: rows past 63 read as 0
+    if p.get('corners'):
+        # concrete coordinates at every edge and at the seam between the two
+        # halves of the map (row 31 / 32), memory still arbitrary: this also
+        # decides implementations that slice rows instead of reading cells
+        cx = x.choice('x', [0, 1, 126, 127])
+        cy = x.choice('y', [0, 30, 31, 32, 33, 62, 63])
+    else:
+        cx = x.int('x', 0, 127)
+        cy = x.int('y', 0, 63)        # documented: rows past 63 read as 0
     try:
         got = mp.get_rect_tiles(cx, cy, w, h)
     except Exception as e:
@@ -596,7 +603,8 @@ HARNESSES = [
                       dict(Q, shape=[2, 3, 3], maxoff=200, _budget=900)]),
     Harness('cells', cells, logic='QF_AUFBV', quick=[Q]),
     Harness('get_rect', get_rect, logic='QF_AUFBV',
-            quick=[dict(Q, w=2, h=2)],
+            quick=[dict(Q, w=2, h=2), dict(Q, w=2, h=3, corners=True),
+                   dict(Q, w=3, h=1, corners=True)],
             thorough=[dict(Q, w=a, h=b) for a in (1, 2, 3) for b in (1, 3)]),
     Harness('set_rect', set_rect, logic='QF_AUFBV',
             quick=[dict(Q, shape=[2]), dict(Q, shape=[1, 2])],
